@@ -32,17 +32,18 @@ type Event struct {
 
 // Scenario = peers with behaviours + script of honest-side events.
 type Scenario struct {
-	Name     string
-	Len      int // initial honest chain length
-	Peers    []Behaviour
-	Addrs    []string // optional explicit addresses
-	Script   []Event
-	Deadline time.Duration // budget for the final convergence wait
-	Checkpts []int         // heights of block checkpoints set in the chain parameters
-	Parallel bool          // dial all peers at once instead of in listed order
-	Barrier  bool          // peers hold their first headers reply until every listed peer has connected
-	NoRedial bool          // every peer can be dialled once: a peer the client dropped does not come back, nobody new joins
-	HoldCF   bool          // peer i+1 is dialled only after peer i has been asked for cfheaders (peer i alone at first)
+	Name       string
+	Len        int // initial honest chain length
+	Peers      []Behaviour
+	Addrs      []string // optional explicit addresses
+	Script     []Event
+	Deadline   time.Duration // budget for the final convergence wait
+	Checkpts   []int         // heights of block checkpoints set in the chain parameters
+	Parallel   bool          // dial all peers at once instead of in listed order
+	Barrier    bool          // peers hold their first headers reply until every listed peer has connected
+	ManualGate bool          // only peer 0 is dialled at the start; the scenario opens the other gates itself (OpenGate)
+	NoRedial   bool          // every peer can be dialled once: a peer the client dropped does not come back, nobody new joins
+	HoldCF     bool          // peer i+1 is dialled only after peer i has been asked for cfheaders (peer i alone at first)
 }
 
 // Sim is one running scenario.
@@ -113,6 +114,21 @@ func New(sc Scenario, rng *rand.Rand, out func(op, obs string)) (*Sim, error) {
 		addr := fmt.Sprintf("10.0.%d.%d:18444", i/200, 1+i%200)
 		if i < len(sc.Addrs) && sc.Addrs[i] != "" {
 			addr = sc.Addrs[i]
+		}
+		if b.Kind == "liarCFHeaders" && b.Variant == "consistent" && b.H <= sc.Len {
+			// the false filter must be refutable from the block: move the lie to a block
+			// that has more than its coinbase (with one honest and one lying peer nothing
+			// else can break the tie, and the client rightly waits for a majority)
+			for d := 0; d <= sc.Len; d++ {
+				if x := tip.Ancestor(int32(b.H + d)); x != nil && x.Height > 0 && len(x.Msg.Transactions) > 1 {
+					b.H += d
+					break
+				}
+				if x := tip.Ancestor(int32(b.H - d)); x != nil && x.Height > 0 && len(x.Msg.Transactions) > 1 {
+					b.H -= d
+					break
+				}
+			}
 		}
 		p := &Peer{Idx: i, Addr: addr, B: b, w: s.W, Release: make(chan struct{})}
 		switch b.Kind {
@@ -236,6 +252,9 @@ func (s *Sim) Start() error {
 	go func() {
 		defer s.wg.Done()
 		for i := range s.Peers {
+			if s.Sc.ManualGate && i > 0 {
+				break
+			}
 			s.openGate(i)
 			p := s.Peers[i]
 			dl := time.Now().Add(3 * time.Second)
@@ -253,6 +272,9 @@ func (s *Sim) Start() error {
 	}()
 	return nil
 }
+
+// OpenGate lets peer i be dialled (ManualGate scenarios).
+func (s *Sim) OpenGate(i int) { s.openGate(i) }
 
 func (s *Sim) openGate(i int) {
 	s.gateMu.Lock()
